@@ -165,6 +165,15 @@ class RibCtx(BaseCtx):
             wd = wd + [rng.pick(wd)]              # a prefix listed twice among the withdrawn routes (redundant, legal)
             self.stats["gen:duplicate_withdrawn_prefix"] += 1
         attrs = self.attrs_for(rng.randrange(len(ATTRSETS)), False) if nl else {}
+        if nl and rng.chance(0.2):
+            # a prefix listed twice in the NLRI field of one UPDATE (redundant, legal)
+            nl = nl + [rng.pick(nl)]
+            self.stats["gen:duplicate_announced_prefix"] += 1
+        if nl and rng.chance(0.05):
+            # several hundred COMMUNITIES values (extended-length attribute)
+            attrs = dict(attrs)
+            attrs["communities"] = [(65001 << 16) | i for i in range(rng.pick([257, 300, 600]))]
+            self.stats["gen:announcement_with_hundreds_of_communities"] += 1
         if nl and rng.chance(0.05):
             # announcement without any path attribute (Total Path Attribute Length 0): yabgp installs it
             attrs = {}
@@ -207,6 +216,11 @@ class RibCtx(BaseCtx):
             raw = rp.mp_unreach(1, 133, nlri)
         else:
             raw = self.base_attr_bytes() + rp.mp_reach(1, 133, b"", nlri) + rp.ext_communities([rng.pick(FLOW_ACTIONS)])
+            if rng.chance(0.3):
+                # one UPDATE replaces a rule: MP_REACH of one and MP_UNREACH of another (RFC 4760 allows both)
+                other = rp.flowspec_nlri(*FLOW_RULES[(i + 2) % len(FLOW_RULES)])
+                raw += rp.mp_unreach(1, 133, other)
+                self.stats["gen:mp_reach_and_unreach_in_one_update"] += 1
         return self.maybe_mixed(rng, raw)
 
     def gen_vpn(self, rng):
@@ -220,6 +234,9 @@ class RibCtx(BaseCtx):
         else:
             nh = bytes(8) + socket.inet_aton("2.2.2.2")
             raw = self.base_attr_bytes() + rp.mp_reach(1, 128, nh, nlri) + rp.ext_communities([rng.pick(VPN_RTS)])
+            if rng.chance(0.3):
+                raw += rp.mp_unreach(1, 128, rp.vpnv4_nlri(*VPN_ROUTES[(i + 2) % len(VPN_ROUTES)], withdraw=True))
+                self.stats["gen:mp_reach_and_unreach_in_one_update"] += 1
         return self.maybe_mixed(rng, raw)
 
     def maybe_mixed(self, rng, raw):
@@ -253,6 +270,11 @@ class RibCtx(BaseCtx):
                 del b["attr"]["5"]          # the default LOCAL_PREF (iBGP) is then filled in by the API
                 self.stats["gen:rest_announce_without_local_pref"] += 1
             b["nlri"] = nl
+            if rng.chance(0.12):
+                # an attribute type yabgp has no encoder for (AS4_PATH): not put on the wire; tables and counters
+                # follow the request as usual
+                b["attr"]["17"] = [[2, [70000, 4200000000]]]
+                self.stats["gen:rest_announce_with_attribute_without_encoder"] += 1
         if wd:
             b["withdraw"] = wd
         return b
@@ -415,30 +437,46 @@ class RibCtx(BaseCtx):
         family = "ipv4"
         other = dict((c, (fl, bytes.fromhex(v))) for c, fl, v in d["attrs"].get("other", []))
         has_mp = 14 in other or 15 in other
+        mp_skip = ()
         if has_mp:
-            code = 14 if 14 in other else 15
-            val = other[code][1]
-            afi, safi = struct.unpack("!HB", val[:3])
-            family = {(1, 133): "flowspec", (1, 128): "mpls_vpn"}.get((afi, safi))
-            if family is None:
-                return
-            if code == 14:
-                nhl = val[3]
-                nlri = val[4 + nhl + 1:]
-            else:
-                nlri = val[3:]
-            keys = self.split_nlri(family, nlri)
-            attr_id = repr(sorted((c, v.hex()) for c, (fl, v) in other.items() if c != 14)) + repr(sorted((k, repr(v)) for k, v in d["attrs"].items() if k != "other"))
-            tbl = self.rx[family]
-            for k in keys:
+            fams = []
+            for code in (14, 15):
+                if code not in other:
+                    continue
+                val = other[code][1]
+                afi, safi = struct.unpack("!HB", val[:3])
+                family = {(1, 133): "flowspec", (1, 128): "mpls_vpn"}.get((afi, safi))
+                if family is None:
+                    return
+                fams.append(family)
                 if code == 14:
-                    if tbl.get(k) != attr_id:
-                        fam_changed[family] = True
-                    tbl[k] = attr_id
+                    nhl = val[3]
+                    nlri = val[4 + nhl + 1:]
                 else:
-                    if k in tbl:
-                        fam_changed[family] = True
-                        del tbl[k]
+                    nlri = val[3:]
+                keys = self.split_nlri(family, nlri)
+                # what came with the announcement; an MP_UNREACH travelling in the same UPDATE is kept apart: whether
+                # it belongs to the announced route's attributes is not fixed by the property
+                attr_id = repr(sorted((c, v.hex()) for c, (fl, v) in other.items() if c not in (14, 15))) + \
+                    repr(sorted((k, repr(v)) for k, v in d["attrs"].items() if k != "other"))
+                rider = other[15][1].hex() if 15 in other else None
+                tbl = self.rx[family]
+                for k in keys:
+                    if code == 14:
+                        old_e = tbl.get(k)
+                        if old_e is None or old_e[0] != attr_id:
+                            fam_changed[family] = True
+                        elif old_e[1] != rider:
+                            mp_skip = (family,)     # same attributes, another MP_UNREACH rider: not judged
+                            self.stats["version_not_judged(mp_unreach_rider_differs)"] += 1
+                        tbl[k] = (attr_id, rider)
+                    else:
+                        if k in tbl:
+                            fam_changed[family] = True
+                            del tbl[k]
+            if len(fams) == 2:
+                self.stats["rx_updates_with_mp_reach_and_unreach"] += 1
+            family = fams[0]
             self.stats["rx_%s_updates" % family] += 1
         if d["withdrawn"] or d["nlri"] or not has_mp:
             tbl = self.rx["ipv4"]
@@ -475,7 +513,7 @@ class RibCtx(BaseCtx):
                                 "Adj-RIB-In[%s] = %s; the last announcement carried %s" % (pfx, canon(rib[pfx]), tbl[pfx]))
         if has_mp and (d["withdrawn"] or d["nlri"]):
             family = family + "+ipv4"
-        skip = ("ipv4",) if set(d["withdrawn"]) & set(d["nlri"]) else ()
+        skip = (("ipv4",) if set(d["withdrawn"]) & set(d["nlri"]) else ()) + tuple(mp_skip)
         self.version_check("rx", fam_changed, v_before, v_after, "received UPDATE (%s)" % family, skip)
 
     @staticmethod
@@ -591,8 +629,8 @@ class RibProfile(BaseProfile):
             "sets, 3 flowspec rules x 3 actions, 3 VPNv4 routes x 2 route targets (announce, withdraw, re-announce same/different "
             "attributes, several routes per message, withdraw of absent routes), REST send/update for the sent side (IPv4, "
             "flowspec, VPNv4), adj-rib-in/out queries, session drops (close, reset, NOTIFICATION, operator stop) and "
-            "re-establishment; 30 % of the announcements carry their attributes in a shuffled wire order; 25 % of the runs hold back the completion of the agent's own closes until the next session has routes, 25 % let the application handler raise ENOSPC at message callbacks; non-trivial = reached Established; distinct = distinct (op, state) sequence")
-    probes = ["gen:rest_mp_with_ipv4_withdraw", "gen:default_handler_runs", "op:hfail", "gen:late_close_during_next_session", "gen:attributes_in_unusual_order", "gen:duplicate_withdrawn_prefix", "gen:prefixes_with_nonzero_padding", "gen:rest_announce_without_local_pref", "gen:mixed_mp_and_ipv4_updates", "rx_ipv4_updates", "rx_flowspec_updates", "rx_mpls_vpn_updates", "tx_ipv4_updates", "tx_flowspec_updates",
+            "re-establishment; 30 % of the announcements carry their attributes in a shuffled wire order; 25 % of the runs hold back the completion of the agent's own closes until the next session has routes, 25 % let the application handler raise ENOSPC at message callbacks; non-trivial = reached Established; distinct = distinct (op, state) sequence; 20 % of the peer OPENs advertise ADD-PATH (nothing agreed); MP_REACH+MP_UNREACH in one UPDATE, duplicate prefixes in one NLRI field, 257-600 communities, REST announcements naming AS4_PATH")
+    probes = ["gen:mp_reach_and_unreach_in_one_update", "gen:announcement_with_hundreds_of_communities", "gen:rest_announce_with_attribute_without_encoder", "gen:duplicate_announced_prefix", "gen:rest_mp_with_ipv4_withdraw", "gen:default_handler_runs", "op:hfail", "gen:late_close_during_next_session", "gen:attributes_in_unusual_order", "gen:duplicate_withdrawn_prefix", "gen:prefixes_with_nonzero_padding", "gen:rest_announce_without_local_pref", "gen:mixed_mp_and_ipv4_updates", "rx_ipv4_updates", "rx_flowspec_updates", "rx_mpls_vpn_updates", "tx_ipv4_updates", "tx_flowspec_updates",
               "tx_mpls_vpn_updates", "session_drops", "withdraw_of_absent_route", "reannounce_same_attrs",
               "reannounce_changed_attrs", "rib_queries", "version_should_increase:rx:flowspec",
               "version_should_increase:rx:mpls_vpn", "version_should_increase:tx:flowspec"]
@@ -618,6 +656,9 @@ class RibProfile(BaseProfile):
         caps = [rp.cap_mp(1, 1), rp.cap_mp(1, 133), rp.cap_mp(1, 128), rp.cap_rr()]
         if rng.chance(0.7):
             caps.append(rp.cap_as4(cfg["remote_as"]))
+        if rng.chance(0.2):
+            # the peer advertises ADD-PATH for IPv4 unicast; the agent (add_path unset) does not: nothing is agreed
+            caps.append(rp.cap_addpath(1, 1, rng.pick([1, 2, 3])))
         cfg["peer_open"] = rp.encode_open(cfg["remote_as"], rng.pick([0, 90, 180]), "2.2.2.2", caps).hex()
         return cfg
 
